@@ -362,6 +362,13 @@ func (c *lossState) discardKeys(now time.Time, log *slog.Logger, space numberSpa
 	c.spaces[space].discard()
 	c.spaces[space].maxAcked = -1
 	c.spaces[space].lastAckEliciting = -1
+	// Discarding keys indicates forward progress: reset the PTO backoff.
+	// (A client does not reset it for acks of Initial packets, so after a
+	// lossy start it would otherwise carry the accumulated backoff into the
+	// rest of the handshake and the Application Data space.)
+	// https://www.rfc-editor.org/rfc/rfc9002.html#section-6.2.2-1
+	// https://www.rfc-editor.org/rfc/rfc9002.html#appendix-A.11
+	c.ptoBackoffCount = 0
 	c.scheduleTimer(now)
 	if logEnabled(log, QLogLevelPacket) {
 		logBytesInFlight(log, c.cc.bytesInFlight)
